@@ -94,3 +94,22 @@ Definition cat_gates_2qutrit_quick := (cat_gates_2qutrit_single ++ cat_gates_2qu
 (* the zero-argument function of gate_typical.py that returns the base matrix b *)
 Definition base_method (b : nat) : string :=
   match b with O => "calc_base_matrix_1qutrit_identity" | S c => "calc_base_matrix_1qutrit_" ++ ax_name (c mod 3) ++ "_" ++ lvl_name (c / 3) end.
+
+(* ---------------- state ensembles (1 qubit) and plain name lists *)
+Definition cat_ensembles : list string := ["z0"; "z1"; "x0"].
+Definition state_names (sys : nat) : list string := map fst (cat_states sys).
+Definition all_state_names : list string := flat_map state_names (seq 0 5).
+Definition povm_names (sys : nat) : list string := map fst (cat_povms sys).
+Definition gate_names (sys : nat) : list string := map fst (cat_gates sys).
+
+(* ---------------- which vector functions of state_typical.py a state name dispatches to, in tensor order (the ATOMS of C17_PySem's formal
+   pure-state vectors): zero-argument functions get_state_<name>_pure_state_vector, the Bell states through get_state_bell_pure_state_vector(name) *)
+Definition vec_method (n : string) : string := "get_state_" ++ n ++ "_pure_state_vector".
+Definition state_atoms (s : sname) : list string :=
+  match s with
+  | SQ ks => map (fun k => vec_method (st1q_name k)) ks
+  | SBell k => ["get_state_bell_pure_state_vector:" ++ bell_name k]
+  | SGhz => [vec_method "ghz"] | SWerner => [vec_method "werner"]
+  | ST ks => map (fun c => vec_method (st1t_name c)) ks
+  | ST012 => [vec_method "0_1_2_superposition"] | ST001122 => [vec_method "00_11_22_superposition"]
+  end.
